@@ -87,6 +87,12 @@ func main() {
 		off := func(p token.Pos) int { return fset.Position(p).Offset }
 		var edits []edit
 		var funcStack []string
+		importsSync := false
+		for _, im := range f.Imports {
+			if im.Path.Value == `"sync"` {
+				importsSync = true
+			}
+		}
 		curFunc := func() string {
 			if len(funcStack) == 0 {
 				return ""
@@ -125,6 +131,43 @@ func main() {
 					addYield(x.Body.Lbrace, "for")
 				case *ast.RangeStmt:
 					addYield(x.Body.Lbrace, "range")
+				case *ast.ExprStmt:
+					// x.Lock() / x.RLock() as a statement, in a file that imports "sync": rewritten
+					// into a try-lock loop so that a task waiting for a lock held by a parked task
+					// hands the baton on instead of blocking for real. (sync.Mutex and
+					// sync.RWMutex have TryLock/TryRLock; if x is something else the build fails
+					// and the check exits 2.)
+					call, ok := x.X.(*ast.CallExpr)
+					if !ok || len(call.Args) != 0 || !importsSync {
+						return true
+					}
+					sel, ok := call.Fun.(*ast.SelectorExpr)
+					if ok && (sel.Sel.Name == "Unlock" || sel.Sel.Name == "RUnlock") {
+						// a preemption point right after every release
+						id := next
+						next++
+						sites = append(sites, site{ID: id, File: rel, Line: fset.Position(x.Pos()).Line, Kind: "unlock", Func: curFunc()})
+						o := off(x.End())
+						edits = append(edits, edit{o, o, fmt.Sprintf("; __vh.Yield(%d)", id)})
+						return false
+					}
+					if !ok || (sel.Sel.Name != "Lock" && sel.Sel.Name != "RLock") {
+						return true
+					}
+					recv := string(src[off(sel.X.Pos()):off(sel.X.End())])
+					if strings.Contains(recv, "\n") {
+						return true
+					}
+					id := next
+					next++
+					sites = append(sites, site{ID: id, File: rel, Line: fset.Position(x.Pos()).Line, Kind: "lock", Func: curFunc()})
+					try := "TryLock"
+					if sel.Sel.Name == "RLock" {
+						try = "TryRLock"
+					}
+					txt := fmt.Sprintf("__vh.Yield(%d); for !(%s).%s() { if !__vh.Blocked(%d) { (%s).%s(); break } }", id, recv, try, id, recv, sel.Sel.Name)
+					edits = append(edits, edit{off(x.Pos()), off(x.End()), txt})
+					return false
 				case *ast.SendStmt:
 					id := next
 					next++
